@@ -152,7 +152,7 @@ def a2f_cases(rng, tier):
                 for e in (-1, 0, 1):
                     if 0 <= b + e < U64:
                         cs.add((b + e, b, p))
-    n = 1500 if tier == "quick" else 150000
+    n = 1500 if tier == "quick" else 60000
     for _ in range(n):
         b, p = r_base(rng), r_prop(rng)
         if rng.chance(1, 2):
@@ -168,7 +168,7 @@ def a2f_cases(rng, tier):
 
 def blind_cases(rng, tier):
     cs = set()
-    n = 600 if tier == "quick" else 60000
+    n = 600 if tier == "quick" else 30000
     for _ in range(n):
         b, p = r_base(rng), r_prop(rng)
         a = 1 + rng.below(10 ** 9)
@@ -214,7 +214,7 @@ def seq_chunks(rng, tier):
     """Operation chunks for the config state machine. Every chunk first expires the previous config
     (5 ticks; more than the constant would be equally fine) so that its start state is fully visible
     through `show`; inside a chunk the generator mirrors the state only to AIM the checks."""
-    nchunks = 12 if tier == "quick" else 400
+    nchunks = 12 if tier == "quick" else 200
     chunks = []
     for ci in range(nchunks):
         r = rng.fork("seq%d" % ci)
@@ -535,7 +535,7 @@ def trace_check(ctx, model_ok):
     from props.c02 import fwdmodel as FM
     shards = core.NPROC
     per_round = 200 if ctx.tier == "quick" else 1000
-    rounds = 1 if ctx.tier == "quick" else int(os.environ.get("C02_THOROUGH_ROUNDS", "8"))
+    rounds = 1 if ctx.tier == "quick" else int(os.environ.get("C02_THOROUGH_ROUNDS", "4"))
     binp = ctx.bin_path("h_fwd")
     agg = collections.Counter()
     violating, items = [], []
